@@ -71,6 +71,12 @@ var anyLists = [][]*afn{
 	{{id: "ps", typ: "*string", out: qs("PS:"), mk: bytesFn[*string]}, {id: "s", typ: "string", out: qs("S:"), mk: bytesFn[string]}},
 	{{id: "decoy", typ: "decoy", out: qs("D"), mk: bytesFn[decoyT]}},
 	{{id: "s-skip", typ: "string", skip: true, mk: coderFn[string]}, {id: "l-skip", typ: "[]any", skip: true, mk: coderFn[*[]any]}, {id: "m", typ: "map[string]any", out: qs("M"), mk: coderFn[*map[string]any]}},
+	// a function that cannot be skipped and is declared on an unrelated type stands first: the functions
+	// behind it still apply to every value of their own type
+	{{id: "decoy", typ: "decoy", out: qs("D"), mk: bytesFn[decoyT]}, {id: "s", typ: "string", out: qs("S:"), mk: bytesFn[string]}},
+	{{id: "decoy", typ: "decoy", out: qs("D"), mk: bytesFn[decoyT]}, {id: "n", typ: "float64", out: qs("N"), mk: coderFn[float64]}, {id: "b", typ: "bool", out: qs("B"), mk: bytesFn[bool]}},
+	{{id: "decoy-c", typ: "decoy", out: qs("D"), mk: coderFn[decoyT]}, {id: "l", typ: "[]any", out: qs("L"), mk: bytesFn[[]any]}, {id: "m", typ: "map[string]any", out: qs("M"), mk: coderFn[map[string]any]}},
+	{{id: "decoy", typ: "decoy", out: qs("D"), mk: bytesFn[decoyT]}, {id: "decoy2", typ: "decoy", out: qs("D"), mk: bytesFn[*decoyT]}, {id: "s-skip", typ: "string", skip: true, mk: coderFn[string]}, {id: "s", typ: "string", out: qs("S:"), mk: bytesFn[string]}},
 }
 
 var anyMarshalers = func() []*json.Marshalers {
@@ -80,7 +86,11 @@ var anyMarshalers = func() []*json.Marshalers {
 		for _, f := range l {
 			ms = append(ms, f.mk(f))
 		}
-		out[i] = json.JoinMarshalers(ms...)
+		if i%2 == 1 && len(ms) > 1 {
+			out[i] = json.JoinMarshalers(ms[0], json.JoinMarshalers(ms[1:]...)) // the same list, nested
+		} else {
+			out[i] = json.JoinMarshalers(ms...)
+		}
 	}
 	return out
 }()
